@@ -13,6 +13,7 @@ import (
 func init() { register("C20", checkC20) }
 
 func checkC20(r *core.Run) {
+	D3Mods = r.Mods
 	r.Explanation = "C20 (structural clauses only): promotion — every store of the super role into a node record is dominated, along the whole call chain up to its entry point, by the status-requirement mask, the capacity threshold and a successful delegation-share check; re-evaluation — each share-affecting staking hook reaches the re-evaluation routine on every path, inside it every failing requirement is followed by demotion when the role is super, a capacity withdrawal re-tests the threshold after the decrement and demotes, a status reset clears the role before re-evaluating; committed state only — no process-resident state is written (shared with C01/C03). Decides these structural clauses, not agreement of the flag with the predicate over staking histories."
 	r.Rule("G-promote: stores of NODE_SUPER to Node.Role <= (Status & SUPER_REQUIREMENT) == SUPER_REQUIREMENT AND TotalStorage >= VstorageThreshold AND CheckDelegationShare == nil, conjoined along the call chain")
 	r.Rule("G-demote: in verifySuperStorageNodes each failing requirement (status mask, pledge missing/below threshold, share check error, delegation being removed) is followed within the iteration by SetNormalNode unless Role != super")
